@@ -210,7 +210,11 @@ def replay_lifecycle(args):
             if op['op'] == 'new':
                 inst[i] = json_ast.DznJsonAst(None if op['d'] == 'none' else docs[op['d']]['json'])
             elif op['op'] == 'load':
-                ret = inst[i].load_file(os.path.join(tmpdir, op['d'] + '.json'))
+                # every load goes through ONE path whose file is rewritten (a regenerated model file)
+                path = os.path.join(tmpdir, f'current-{os.getpid()}.json')
+                with open(path, 'wb') as fil:
+                    fil.write(docs[op['d']]['json'])
+                ret = inst[i].load_file(path)
                 if ret is not inst[i]:
                     return [('load_file returns self', True, False)]
             else:
@@ -239,8 +243,9 @@ def record_lifecycle_trace(rng, tid, tmpdir):
     from dznpy import json_ast, scoping  # pylint: disable=import-outside-toplevel
     docs = [rand_doc(rng, 8, broken=0.08 if k == 2 else 0.0) for k in range(3)]
     paths = []
+    shared = rng.random() < 0.5            # one path, rewritten before every load (a regenerated file)
     for k, doc in enumerate(docs):
-        path = os.path.join(tmpdir, f'{tid}-{k}.json')
+        path = os.path.join(tmpdir, f'{tid}-shared.json' if shared else f'{tid}-{k}.json')
         with open(path, 'wb') as fil:
             fil.write(dzn.doc_to_json(doc))
         paths.append(path)
@@ -256,6 +261,8 @@ def record_lifecycle_trace(rng, tid, tmpdir):
             held[i] = docs[k] if has else None
             events.append({'op': 'new', 'i': i, 'has': has, 'doc': spec_tokens(docs[k]) if has else []})
         elif kind == 'load':
+            with open(paths[k], 'wb') as fil:
+                fil.write(dzn.doc_to_json(docs[k]))
             inst[i].load_file(paths[k])
             held[i] = docs[k]
             events.append({'op': 'load', 'i': i, 'doc': spec_tokens(docs[k])})
@@ -266,7 +273,7 @@ def record_lifecycle_trace(rng, tid, tmpdir):
             except (json_ast.DznJsonError, scoping.NamespaceIdsTypeError):
                 obs = {'ok': False, 'fc': empty}
             events.append({'op': 'process', 'i': i, 'obs': obs})
-    for path in paths:
+    for path in set(paths):
         os.unlink(path)
     return {'id': tid, 'events': events}
 
@@ -488,6 +495,17 @@ def check_c15(tier, seed):
                 pos_eff = 'asserted' if pos == 'root' else pos
                 events.append(dict(fault, pos=pos_eff, outcome=outcome_of(faulted), doc=tnum, path=list(path)))
                 chk.count((tnum, fnum, path))
+    # conformance with the catalogue's verdicts (informational: the statement allows "contents or documented error")
+    verdict = {json.dumps(f['fault'], sort_keys=True): f for f in faults}
+    for evt in events:
+        ent = verdict.get(json.dumps({k: evt[k] for k in ('kind', 'cls', 'key', 'arg')}, sort_keys=True))
+        if ent is None:
+            continue
+        exp = ent[evt['pos']]
+        if (exp == 'reject' and evt['outcome'] == 'ok') or (exp == 'accept' and evt['outcome'] != 'ok'):
+            chk.disagreements_checked += 1
+            if chk.disagreements_checked <= 5:
+                chk.notes.append(f'catalogue verdict {exp} but outcome {evt["outcome"]} for {evt["kind"]} {evt["cls"]}.{evt["key"]} {evt["arg"]}')
     unused = [faults[i]['fault'] for i in range(len(faults)) if i not in used]
     chk.extra['fault_classes'] = len(faults)
     chk.extra['fault_classes_never_instantiated'] = len(unused)
@@ -540,6 +558,15 @@ def check_c15(tier, seed):
         events.append({'kind': 'arbitrary', 'cls': '', 'key': '', 'arg': '', 'pos': 'asserted',
                        'outcome': outcome_of(val), 'json': val})
         chk.count(('json', i))
+    # depth: namespaces nested far beyond anything enumerated (the parser and NamespaceTree.fqn are recursive)
+    for depth in (40, 150, 300, 420, 480, 505):
+        inner = [{'<class>': 'enum', 'name': dzn.scope_name(['E']), 'fields': {'<class>': 'fields', 'elements': ['a']}}]
+        for k in range(depth):
+            inner = [{'<class>': 'namespace', 'name': dzn.scope_name([f'N{k}']), 'elements': inner}]
+        events.append({'kind': 'arbitrary', 'cls': '', 'key': '', 'arg': '', 'pos': 'asserted',
+                       'outcome': outcome_of({'<class>': 'root', 'elements': inner, 'working-directory': 'w'}),
+                       'deep_nesting': depth})
+        chk.count(('depth', depth))
     chk.sample(events[0])
     chk.sample(events[len(events) // 3])
     slim = [{k: e[k] for k in ('kind', 'cls', 'key', 'arg', 'pos', 'outcome')} for e in events]
@@ -549,6 +576,10 @@ def check_c15(tier, seed):
     for trace, pos in rejected[:10]:
         evt = events[int(trace['id'][1:]) + pos - 1]
         exp = next((f for f in faults if f['fault'] == {k: evt[k] for k in ('kind', 'cls', 'key', 'arg')}), None)
+        if 'deep_nesting' in evt:
+            chk.violation(f'{evt["deep_nesting"]} nested namespaces: outcome {evt["outcome"]} is not a documented error',
+                          {'event': evt, 'spec': 'ParserFaults.tla'})
+            continue
         chk.violation(f'fault {evt["kind"]} {evt["cls"]}.{evt["key"]} {evt["arg"]} at {evt.get("path")}: outcome '
                       f'{evt["outcome"]} is not allowed (model verdict: {exp[evt["pos"]] if exp else "documented outcome only"})',
                       {'event': evt, 'spec': 'ParserFaults.tla', 'base_doc': evt.get('doc')})
